@@ -21,7 +21,7 @@ def tiers(prop, tier):
         return [(c, 1, 'all') for c in cfgs] + [(c, 0, 300000) for c in cfgs] + [('asan-sse2', 1, 'all'), ('asan-avx2', 1, 'all')]
     if prop == 'C05':
         if q:
-            return [('sse2-base@lite', 0, 30000), ('avx512@lite', 0, 30000), ('sse2-vecassign@lite', 0, 30000)]
+            return [('sse2-base@lite', 0, 30000), ('avx512@lite', 0, 30000), ('sse2-vecassign@lite', 0, 30000), ('avx2-vecassign@lite', 0, 30000)]
         cfgs = ['sse2-base', 'sse42', 'avx', 'avx2', 'avx512', 'avx512-cxx17', 'sse2-vecassign', 'avx2-vecassign', 'avx512-vecassign',
                 'avx2-dontalign', 'scalar', 'O0-debug', 'O3-avx2', 'clang-sse2', 'clang-avx2', 'clang-avx512']
         return [(c, 0, 400000) for c in cfgs] + [('asan-sse2', 0, 20000), ('asan-avx2', 0, 20000)]
@@ -116,11 +116,13 @@ def sizes1(t):
 
 
 def matmul_triples(t):
-    base = [(2, 2, 2), (3, 3, 3), (4, 4, 4), (8, 8, 8), (3, 3, 1), (1, 3, 3), (3, 1, 3), (1, 1, 1), (2, 3, 4), (5, 5, 5), (3, 9, 1), (9, 3, 3)]
+    base = [(2, 2, 2), (3, 3, 3), (4, 4, 4), (8, 8, 8), (3, 3, 1), (1, 3, 3), (3, 1, 3), (1, 1, 1), (2, 3, 4), (5, 5, 5), (3, 9, 1), (9, 3, 3),
+            # wide right-hand sides: the interior masked block kernels start at N >= 5 vector widths
+            (5, 4, 22), (4, 3, 21), (4, 2, 23), (5, 3, 43), (8, 2, 41), (4, 4, 45), (6, 2, 83), (4, 3, 26), (12, 2, 22), (4, 5, 31)]
     Ms = [1, 2, 3, 4, 5, 8]; Ks = [1, 2, 3, 4, 7]; Ns = [1, 2, 3, 4, 5, 6, 7, 8, 9, 10, 12, 15, 16, 17]
     g = _lcg({'float': 11, 'double': 22, 'int': 33}[t])
     out = list(base)
-    while len(out) < 84:
+    while len(out) < 94:
         m, k, n = Ms[next(g) % len(Ms)], Ks[next(g) % len(Ks)], Ns[next(g) % len(Ns)]
         if (m, k, n) not in out:
             out.append((m, k, n))
@@ -133,8 +135,8 @@ def memsim_ops(config, flags):
     avx2_plus = any(f in flags for f in ('-mavx2', 'avx512', '-mavx ', '-mavx'))
     ops = []
 
-    def reg(fn, fam, fl='0'):
-        ops.append(f'MEMSIM_REG(v, ({fn}), "{fn}", "{fam}", {fl});')
+    def reg(fn, fam, fl='0', keep=False):
+        ops.append(f'MEMSIM_REG(v, ({fn}), "{fn}", "{fam}", {fl});' + (' /*keep*/' if keep else ''))
     for t in ALLT:
         fp = t in FLOATS
         for n in sizes1(t):
@@ -204,8 +206,8 @@ def memsim_ops(config, flags):
             reg(f'op_print<{t},{sh}>', 'exempt', 'F_EXEMPT')
     for t in ('float', 'double', 'int'):
         for i, (m, k, n) in enumerate(matmul_triples(t)):
-            reg(f'op_matmul<{t},{m},{k},{n}>', 'matmul')
-            reg(f'op_raw_matmul<{t},{m},{k},{n}>', 'raw_matmul')
+            reg(f'op_matmul<{t},{m},{k},{n}>', 'matmul', keep=n >= 20)
+            reg(f'op_raw_matmul<{t},{m},{k},{n}>', 'raw_matmul', keep=n >= 20)
             reg(f'op_raw_matmul_probe<{t},{m},{k},{n}>', 'raw_matmul_probe', 'F_UNJUDGED | F_ANYALIGN')
             if i % 2 == 0:
                 reg(f'op_map_matmul<{t},{m},{k},{n}>', 'map_matmul', 'F_ANYALIGN')
@@ -267,7 +269,7 @@ def gen_memsim(bdir, config, flags):
     ops = memsim_ops(config, flags)
     if config.endswith('@lite'):
         # quick tier: every second catalogue entry (exempt and bad-index families kept whole)
-        ops = [o for i, o in enumerate(ops) if i % 2 == 0 or 'F_EXEMPT' in o or 'F_BADINDEX' in o]
+        ops = [o for i, o in enumerate(ops) if i % 2 == 0 or 'F_EXEMPT' in o or 'F_BADINDEX' in o or '/*keep*/' in o]
     stmts += ops
     files, decl = write_shards(bdir, 'memsim', ['memsim.h', 'ops_simd.h', 'ops_map.h', 'ops_own.h', 'ops_misc.h'], 'using namespace Fastor;\n', stmts, None)
     with open(os.path.join(bdir, 'shards.inc'), 'w') as f:
@@ -339,7 +341,7 @@ def viewsim_universe(t, shape, config, flags):
     if R <= 3:
         ops += [(f'dyn_alias<{uname}>', 'dyn_alias', 'K_DYN_ALIAS', 'P_C18'), (f'h_create<{uname}>', 'handle', 'K_H_CREATE', 'P_C18'),
                 (f'h_noalias<{uname}>', 'handle', 'K_H_NOALIAS', 'P_C18'), (f'h_assign<{uname}>', 'handle_assign', 'K_H_ASSIGN', 'P_C18')]
-    if R == 1:
+    if R <= 2:
         ops += [(f'idx_alias<{uname}>', 'idx_alias', 'K_IDX_ALIAS', 'P_C18'), (f'mask_alias<{uname}>', 'mask_alias', 'K_MASK_ALIAS', 'P_C18')]
     if R == 2 and shape[0] == shape[1]:
         ops += [(f'diag_coinc<{uname}>', 'diag_coincident', 'K_DIAG', 'P_C18')]
